@@ -104,6 +104,8 @@ def _exec(self, s, st, frame):
         v = self.eval(s.value, st) if s.value is not None else Const(None)
         v = v.with_taint(self.pc) if self.pc else v
         frame.rets.append((v, st.heap))
+        if getattr(frame, 'exit_envs', None) is not None:
+            frame.exit_envs.append(dict(st.env))
         frame.last_end = 'return'
         want = self.capture_locals.get(frame.fsym.qname)
         if want:
@@ -268,7 +270,9 @@ def store_subscript(self, t, v, st, node):
             if base.cplx is False and nv.cplx is True and not nv.rv and not nv.zero:
                 self.conflict('store', 'dtype', 'a complex value is stored into a real array: its imaginary part is discarded', node)
             key = normalise(t.value)
-            if self.frames[-1].strong.get(key):
+            # A[:] = v overwrites every element (numpy raises unless v has the same length or broadcasts)
+            whole_ = isinstance(idx, SliceV) and idx.lo is None and idx.hi is None and idx.step is None
+            if self.frames[-1].strong.get(key) or whole_:
                 # covering loop / first full overwrite: the old element type is dead
                 b0 = Num(zero=True, shape=base.shape, cplx=base.cplx, taint=frozenset())
                 b0.q = 'any'
@@ -843,7 +847,89 @@ def s_For(self, s, st, frame):
             frame.strong.pop(name, None)
 
 
+def _counting_while(s):
+    """`while v < hi: body; v += c` (c = +-1, the increment last, v not assigned elsewhere, no continue): the equivalent
+    `for v in range(v, hi, c)` -- returns (name, hi expression, step, body without the increment) or None"""
+    t = s.test
+    if s.orelse or not (isinstance(t, ast.Compare) and len(t.ops) == 1 and isinstance(t.left, ast.Name)):
+        return None
+    v = t.left.id
+    if not s.body:
+        return None
+    last = s.body[-1]
+    step = None
+    if isinstance(last, ast.AugAssign) and isinstance(last.target, ast.Name) and last.target.id == v \
+            and isinstance(last.value, ast.Constant) and last.value.value == 1 and isinstance(last.op, (ast.Add, ast.Sub)):
+        step = 1 if isinstance(last.op, ast.Add) else -1
+    elif isinstance(last, ast.Assign) and len(last.targets) == 1 and isinstance(last.targets[0], ast.Name) and last.targets[0].id == v \
+            and isinstance(last.value, ast.BinOp) and isinstance(last.value.left, ast.Name) and last.value.left.id == v \
+            and isinstance(last.value.right, ast.Constant) and last.value.right.value == 1 and isinstance(last.value.op, (ast.Add, ast.Sub)):
+        step = 1 if isinstance(last.value.op, ast.Add) else -1
+    if step is None:
+        return None
+    op = t.ops[0]
+    hi = t.comparators[0]
+    if step == 1 and isinstance(op, ast.Lt):
+        hi_e = hi
+    elif step == 1 and isinstance(op, ast.LtE):
+        hi_e = ast.BinOp(left=hi, op=ast.Add(), right=ast.Constant(1))
+    elif step == -1 and isinstance(op, ast.Gt):
+        hi_e = hi
+    elif step == -1 and isinstance(op, ast.GtE):
+        hi_e = ast.BinOp(left=hi, op=ast.Sub(), right=ast.Constant(1))
+    else:
+        return None
+    body = s.body[:-1]
+    for b in body:
+        for n in ast.walk(b):
+            if isinstance(n, ast.Continue):
+                return None
+            if isinstance(n, ast.Name) and n.id == v and isinstance(n.ctx, ast.Store):
+                return None
+    # the bound must not change inside the loop
+    hn = {n.id for n in ast.walk(hi) if isinstance(n, ast.Name)}
+    for b in body:
+        for n in ast.walk(b):
+            if isinstance(n, ast.Name) and n.id in hn and isinstance(n.ctx, ast.Store):
+                return None
+    return v, hi_e, step, body
+
+
+_WHILE_FOR = {}
+
+
 def s_While(self, s, st, frame):
+    cw = _counting_while(s)
+    if cw is not None and isinstance(st.env.get(cw[0]), (IntV, Const)):
+        v, hi_e, step, body = cw
+        key = id(s)
+        if key not in _WHILE_FOR:
+            it = ast.Call(func=ast.Name(id='range', ctx=ast.Load()), args=[ast.Name(id=v, ctx=ast.Load()), hi_e, ast.Constant(step)], keywords=[])
+            f_ = ast.For(target=ast.Name(id=v, ctx=ast.Store()), iter=it, body=body or [ast.Pass()], orelse=[])
+            ast.copy_location(f_, s)
+            ast.fix_missing_locations(f_)
+            for n_ in ast.walk(f_):
+                if not hasattr(n_, 'lineno'):
+                    n_.lineno = s.lineno
+                    n_.col_offset = s.col_offset
+            _WHILE_FOR[key] = (s, f_)
+        f_ = _WHILE_FOR[key][1]
+        init = st.env.get(v)
+        out = self.s_For(f_, st, frame)
+        if out is not None:
+            # a while loop leaves its counter at the bound (a for loop at the last value)
+            try:
+                hv = self.eval(hi_e, out)
+            except PathEnd:
+                hv = None
+            ia, ha = _asint(init), (_asint(hv) if hv is not None else None)
+            if ia is not None and ha is not None and ia.a is not None and ha.a is not None and \
+                    (aff_le(ia.a, ha.a) if step == 1 else aff_le(ha.a, ia.a)):
+                out.env[v] = hv
+            else:
+                out.env[v] = IntV(None, taint_of(init) | (taint_of(hv) if hv is not None else frozenset()))
+        return out
+
     def head(state):
         c = self.eval(s.test, state)
         t = self.truth(c, s.test)
